@@ -117,9 +117,15 @@ fn gen_keys(rng: &mut Rng, n: usize, shape: &str) -> Vec<u32> {
 
 /// McIlroy's adversary: produces keys that make this (deterministic) quicksort degenerate
 fn antiqsort_keys(n: usize, pool: Option<&rayon::ThreadPool>) -> Vec<u32> {
+    antiqsort_keys_with(n, pool, None)
+}
+
+/// `fixed`: keys that are known from the start (None = left to the adversary); the adversary's keys are all larger, so that
+/// only a part of the slice - a sub-slice after the first partitions - degenerates
+fn antiqsort_keys_with(n: usize, pool: Option<&rayon::ThreadPool>, fixed: Option<&[Option<u32>]>) -> Vec<u32> {
     const GAS: i64 = i64::MAX;
-    let val: Vec<AtomicI64> = (0..n).map(|_| AtomicI64::new(GAS)).collect();
-    let nsolid = AtomicI64::new(0);
+    let val: Vec<AtomicI64> = (0..n).map(|i| AtomicI64::new(fixed.and_then(|f| f[i]).map_or(GAS, |k| k as i64))).collect();
+    let nsolid = AtomicI64::new(if fixed.is_some() { n as i64 } else { 0 });
     let candidate = AtomicUsize::new(0);
     let mut ids: Vec<u32> = (0..n as u32).collect();
     let flag = AtomicBool::new(false);
@@ -222,6 +228,13 @@ pub fn run(opts: &Opts, rep: &mut Report) {
         } else if idx % 9 == 4 && n >= 64 {
             shape = "antiquicksort";
             antiqsort_keys(n, pools[0].as_ref())
+        } else if idx % 9 == 5 && (64..=6000).contains(&n) {
+            // only a quarter to a half of the elements (at random positions) belongs to the adversary: the part of the slice that
+            // exhausts the bad-pivot budget is the shorter side of an earlier partition
+            shape = "antiquicksort-in-a-part";
+            let share = rng.range(20, 48);
+            let fixed: Vec<Option<u32>> = (0..n).map(|_| (rng.below(100) >= share).then(|| rng.below(n) as u32)).collect();
+            antiqsort_keys_with(n, pools[0].as_ref(), Some(&fixed))
         } else {
             let mut keys = gen_keys(&mut rng, n, shape);
             // every arrangement is also run with its keys collapsed to a few levels (ties inside a nearly sorted structure)
